@@ -34,7 +34,7 @@ func (f Fasta) Bytes() []byte {
 
 // WriteTo satisfies the io.WriterTo interface.
 func (f Fasta) WriteTo(w io.Writer) (int64, error) {
-	desc := strings.ReplaceAll(f.Desc, "\n", " ")
+	desc := strings.NewReplacer("\n", " ", "\r", " ").Replace(f.Desc)
 	data := wrap.Force(string(f.Data), 70)
 	s := fmt.Sprintf(">%s\n%s\n", desc, data)
 	n, err := io.WriteString(w, s)
